@@ -207,6 +207,25 @@ pub fn run(args: &Args) -> i32 {
         }
     }
 
+    // large avalanche amplitudes (wire pulses that reach the negative rail of the ADC, clipped pad pulses)
+    {
+        let widx: Vec<u64> = (0..total).filter(|i| i % 4 == ((args.seed + 2) % 4)).collect();
+        let results = Mutex::new(vec![Res::default(); widx.len()]);
+        rep.run("high-amplitudes", widx.len() as u64, 300, true, "every 4th lattice point with the avalanche amplitude set to 250 / 325 / 400 (cycled): saturated wire samples, clipped pad samples", |k, loc| {
+            let li = widx[k as usize];
+            let mut spec = lattice_event(li, args.seed);
+            spec.amp = [250.0, 325.0, 400.0][(li as usize / 4) % 3];
+            let r = eval_event(&spec, 12000 + li as u32, hash64(&(li, "high")), json!({"lattice_index": li, "amplitude": spec.amp}), loc);
+            results.lock().unwrap()[k as usize] = r;
+        });
+        if rep.one.is_none() {
+            let rs: Vec<Res> = results.lock().unwrap().iter().copied().filter(|r| r.done).collect();
+            let whole = judge(&rep, "high amplitudes, whole sub-lattice", &rs);
+            eprintln!("  [C12] {whole}");
+            all_batches.push(whole);
+        }
+    }
+
     // azimuth sweeps: two- and three-track events whose first track direction is stepped finely around the whole circle;
     // every window of 200 consecutive azimuths (cyclic) is a batch
     let steps: u64 = if thorough { 3600 } else { 720 };
